@@ -1,15 +1,26 @@
 #!/bin/sh
 # usage: tools/seeded.sh seeded/<id> [tier] [check ids...]
-# Applies the seeded patch to /repo, runs the checks, and ALWAYS undoes the patch.
+# Runs checks against a seeded change.  Default: on a scratch copy of /repo's working
+# tree (VERIF_REPO), so that background runs against /repo are not disturbed; with
+# SEEDED_INPLACE=1 the patch is applied to /repo itself (git -C /repo apply) and ALWAYS
+# undone afterwards (git -C /repo checkout -- .).
 cd "$(dirname "$0")/.." || exit 2
 DIR="$1"; TIER="${2:-quick}"; shift 2 2>/dev/null
 IDS="$*"
 [ -f "$DIR/patch.diff" ] || { echo "no patch in $DIR"; exit 2; }
-[ -n "$(git -C /repo status --porcelain)" ] && { echo "/repo is not clean"; exit 2; }
 [ -z "$IDS" ] && IDS=$(/venv/bin/python -c "import json,sys; print(' '.join(json.load(open('$DIR/meta.json')).get('checks', [json.load(open('$DIR/meta.json'))['property']])))")
-git -C /repo apply "$(pwd)/$DIR/patch.diff" || exit 2
-trap 'git -C /repo checkout -- . ; git -C /repo clean -fdq src' EXIT INT TERM
+if [ -n "$SEEDED_INPLACE" ]; then
+  [ -n "$(git -C /repo status --porcelain)" ] && { echo "/repo is not clean"; exit 2; }
+  git -C /repo apply "$(pwd)/$DIR/patch.diff" || exit 2
+  trap 'git -C /repo checkout -- . ; git -C /repo clean -fdq src' EXIT INT TERM
+  TARGET=/repo
+else
+  TARGET=$(mktemp -d /tmp/seedrun.XXXXXX)
+  trap 'rm -rf "$TARGET"' EXIT INT TERM
+  git -C /repo archive HEAD src | tar -x -C "$TARGET" || exit 2
+  (cd "$TARGET" && git init -q . && git apply "/verif/$DIR/patch.diff") || { echo "patch does not apply"; exit 2; }
+fi
 for id in $IDS; do
-  out=$(./check "$id" --tier "$TIER" 2>&1); rc=$?
+  out=$(VERIF_REPO="$TARGET" ./check "$id" --tier "$TIER" 2>&1); rc=$?
   echo "$DIR $id rc=$rc $(echo "$out" | grep -c '^VIOLATION') VIOLATION lines | $(echo "$out" | grep -A1 '^VIOLATION' | sed -n 2p | cut -c1-200)"
 done
